@@ -2,7 +2,7 @@
 # Runs every seeded change (seeded/<id>/patch.diff) against the check of its property at the
 # registered quick run count, in scratch worktrees. Output: one line per change.
 cd "$(dirname "$0")"
-declare -A RUNS=( [C03]=7000 [C04]=160000 [C13]=4000 [C19]=3000 [C20]=90000 )
+declare -A RUNS=( [C03]=7000 [C04]=160000 [C13]=4000 [C19]=3000 [C20]=120000 )
 for d in seeded/*/; do
   id=$(basename $d); p=${id:0:3}
   echo "=== $id seeded (sub-agent) -> [$p]"
